@@ -48,6 +48,7 @@ impl B {
             favored: None,
             locked: None,
             lock_gone: false,
+            hint_unlisted: false,
             hint: Hint::None,
             unlisted: vec![],
         });
